@@ -185,48 +185,79 @@ func c06r9(c *Ctx) {
 		}
 		return call.Common().Args[0]
 	}
-	n := 0
-	for _, cs := range callsIn(fn, store) {
-		n++
-		recv, ent := cs.Common().Args[0], cs.Common().Args[1]
-		construct := fnName(fn) + "#Store(entry)"
-		type pair struct{ cache, entry ssa.Value }
-		var pairs []pair
+	// checkPair: in function f, is entry value ent (on every incoming path) the result of LookupNonExpired on
+	// cache value recv? Follows phis edge-wise and a same-module helper that returns (entry, cache, ...) together.
+	var checkPair func(f *ssa.Function, recv, ent ssa.Value, depth int) (bad string, undecided string)
+	checkPair = func(f *ssa.Function, recv, ent ssa.Value, depth int) (string, string) {
+		if _, isConst := ent.(*ssa.Const); isConst {
+			return "", "" // the "not found" value: never reaches Store
+		}
+		// both come out of one helper call: judge the helper's returns
+		if ec, ei := originCall(ent); ec != nil && depth > 0 {
+			if rc, ri := originCall(recv); rc != nil && rc == ec && calleeObj(ec) != lookup {
+				g := calleeFn(ec)
+				if !isModuleFn(g) {
+					return "", "entry and cache come from a call that cannot be followed"
+				}
+				for _, b := range g.Blocks {
+					if len(b.Instrs) == 0 {
+						continue
+					}
+					ret, ok := b.Instrs[len(b.Instrs)-1].(*ssa.Return)
+					if !ok || ei >= len(ret.Results) || ri >= len(ret.Results) {
+						continue
+					}
+					if bad, und := checkPair(g, ret.Results[ri], ret.Results[ei], depth-1); bad != "" || und != "" {
+						return bad, und
+					}
+				}
+				return "", ""
+			}
+		}
+		if lr := lookupRecv(ent); lr != nil {
+			if lr != recv {
+				return "the entry found in one cache (" + lr.Name() + ") is stored into another (" + recv.Name() + ")", ""
+			}
+			return "", ""
+		}
 		ephi, eIsPhi := ent.(*ssa.Phi)
 		rphi, rIsPhi := recv.(*ssa.Phi)
 		switch {
 		case eIsPhi && rIsPhi && ephi.Block() == rphi.Block():
 			for i := range ephi.Edges {
-				pairs = append(pairs, pair{rphi.Edges[i], ephi.Edges[i]})
+				if bad, und := checkPair(f, rphi.Edges[i], ephi.Edges[i], depth); bad != "" || und != "" {
+					return bad, und
+				}
 			}
+			return "", ""
 		case eIsPhi:
 			// the cache value is not merged where the entry is: one cache receives whichever entry arrives
 			for _, e := range ephi.Edges {
-				pairs = append(pairs, pair{recv, e})
+				if bad, und := checkPair(f, recv, e, depth); bad != "" || und != "" {
+					return bad, und
+				}
 			}
-		case !eIsPhi && !rIsPhi:
-			pairs = append(pairs, pair{recv, ent})
-		default:
-			c.Undecided(rule, construct, "the cache is merged from several values but the entry is not; cannot pair them", cs.Pos())
-			continue
+			return "", ""
+		case rIsPhi:
+			return "", "the cache is merged from several values but the entry is not; cannot pair them"
 		}
-		_ = rIsPhi
-		bad := ""
-		for _, p := range pairs {
-			if _, isConst := p.entry.(*ssa.Const); isConst {
-				continue // the "not found" edge carries a nil entry and never reaches Store
-			}
-			lr := lookupRecv(p.entry)
-			if lr == nil {
-				c.Undecided(rule, construct, "an entry reaching Store does not come from LookupNonExpired", cs.Pos())
-				bad = "-"
-				break
-			}
-			if lr != p.cache {
-				bad = "the entry found in one cache (" + lr.Name() + ") is stored into another (" + p.cache.Name() + ")"
-			}
+		lr := lookupRecv(ent)
+		if lr == nil {
+			return "", "an entry reaching Store does not come from LookupNonExpired"
 		}
-		if bad == "-" {
+		if lr != recv {
+			return "the entry found in one cache (" + lr.Name() + ") is stored into another (" + recv.Name() + ")", ""
+		}
+		return "", ""
+	}
+	n := 0
+	for _, cs := range callsIn(fn, store) {
+		n++
+		recv, ent := cs.Common().Args[0], cs.Common().Args[1]
+		construct := fnName(fn) + "#Store(entry)"
+		bad, und := checkPair(fn, recv, ent, 2)
+		if und != "" {
+			c.Undecided(rule, construct, und, cs.Pos())
 			continue
 		}
 		c.Check(bad == "", rule, construct, "the entry is stored back into the cache it was looked up in, on every incoming path", bad+": Invalidate on the original cache no longer removes every copy, so an invalidated session can be resumed again", cs.Pos())
@@ -579,20 +610,7 @@ func c15r8(c *Ctx) {
 	}
 	// receive side: source = byte 0 of the header buffer read from the wire
 	for _, fn := range []*ssa.Function{rfe, rf} {
-		isFlagByte := func(v ssa.Value) bool {
-			u, ok := v.(*ssa.UnOp)
-			if !ok || u.Op != token.MUL {
-				return false
-			}
-			ia, ok := u.X.(*ssa.IndexAddr)
-			if !ok {
-				return false
-			}
-			if i, isC := constInt(ia.Index); !isC || i != 0 {
-				return false
-			}
-			return c.filledBy(fn, ia.X, rwc.Object(), 2, 3)
-		}
+		isFlagByte := func(v ssa.Value) bool { return c.isWireByte0(fn, v, rwc.Object(), 2, 2) }
 		rm := markStores(fn, isFlagByte)
 		// delegation: a receiver implemented on top of the other one marks through it
 		for _, other := range []*ssa.Function{rfe, rf} {
@@ -629,12 +647,13 @@ func c15r8(c *Ctx) {
 	}
 	// export tests every mark; nobody else writes them
 	for _, f := range marks {
-		off, _ := fieldCondEdges(exp, f)
+		f := f
+		offCuts := c.condCutsDeep(exp, func(g *ssa.Function) []Edge { o, _ := fieldCondEdges(g, f); return o }, deepDepth)
 		tg := c.successTargets(exp)
-		ok := len(off) > 0
+		ok := len(offCuts.Edges)+len(offCuts.Instrs) > 0
 		var wit []string
 		for _, t := range tg {
-			if p := findPath(entryPoint(exp), t.Target(), newCuts().AddEdges(off...)); p != nil {
+			if p := findPath(entryPoint(exp), t.Target(), offCuts); p != nil {
 				ok = false
 				wit = c.describePath(p)
 			}
@@ -1383,23 +1402,61 @@ func c16r6(c *Ctx) {
 	if undecided != "" {
 		c.Undecided(rule, fnName(a.importInfo)+"#stored-names", undecided, a.importInfo.Pos())
 	}
-	// names Export reads with a string lookup
+	// names Export reads with a string lookup - in the exporter itself or in same-package helpers it calls,
+	// where the attribute name may be a helper parameter fed with constants by the caller
 	readsStr := map[string]bool{}
-	allInstrs(a.export, func(_ *ssa.BasicBlock, _ int, in ssa.Instruction) {
-		call, ok := in.(*ssa.Call)
-		if !ok {
-			return
+	var scope []*ssa.Function
+	for f := range c.reachableFns([]*ssa.Function{a.export}, false) {
+		if fnPkg(f) == fnPkg(a.export) {
+			scope = append(scope, f)
 		}
-		o := calleeObj(call)
-		if o == nil || o.Name() != "EvaluateAttrString" || len(call.Call.Args) != 2 {
-			return
+	}
+	var constArg func(f *ssa.Function, v ssa.Value, depth int) []string
+	constArg = func(f *ssa.Function, v ssa.Value, depth int) []string {
+		if ks, ok := c16ConstStrings(f, v); ok {
+			return ks
 		}
-		if ks, ok := c16ConstStrings(a.export, call.Call.Args[1]); ok {
-			for _, k := range ks {
-				readsStr[k] = true
+		var out []string
+		if depth <= 0 {
+			return nil
+		}
+		for _, o := range origins(f, v) {
+			par, ok := o.(*ssa.Parameter)
+			if !ok {
+				continue
+			}
+			idx := -1
+			for i, q := range f.Params {
+				if q == par {
+					idx = i
+				}
+			}
+			for _, g := range scope {
+				for _, cs := range callsIn(g, f.Object()) {
+					if idx >= 0 && idx < len(cs.Common().Args) {
+						out = append(out, constArg(g, cs.Common().Args[idx], depth-1)...)
+					}
+				}
 			}
 		}
-	})
+		return out
+	}
+	for _, f := range scope {
+		f := f
+		allInstrs(f, func(_ *ssa.BasicBlock, _ int, in ssa.Instruction) {
+			call, ok := in.(*ssa.Call)
+			if !ok {
+				return
+			}
+			o := calleeObj(call)
+			if o == nil || o.Name() != "EvaluateAttrString" || len(call.Call.Args) != 2 {
+				return
+			}
+			for _, k := range constArg(f, call.Call.Args[1], 2) {
+				readsStr[k] = true
+			}
+		})
+	}
 	var names []string
 	for k := range stored {
 		names = append(names, k)
